@@ -13,8 +13,10 @@ Twice(e) ==
   UNION {{<<e.pts[j].k, i - 1>> : i \in {x \in 1..Len(e.pts[j].m) : e.pts[j].m[x] >= 1}} \cap
          {<<e.pts[j2].k, i - 1>> : i \in {x \in 1..Len(e.pts[j2].m) : e.pts[j2].m[x] >= 1}}
          : <<j, j2>> \in {p \in (1..Len(e.pts)) \X (1..Len(e.pts)) : p[1] < p[2] /\ e.pts[p[1]].k = e.pts[p[2]].k}}
+(* a stream key (instrument identity + attribute set) carried by two data points of one report *)
+Split(e) == {e.pts[p[1]].k : p \in {q \in (1..Len(e.pts)) \X (1..Len(e.pts)) : q[1] < q[2] /\ e.pts[q[1]].k = e.pts[q[2]].k}}
 Report(e) == [one |-> Digits(e, 1, 1) \ Twice(e), dup |-> Digits(e, 2, 3) \cup Twice(e), bad |-> e.bad,
-              iv |-> {e.iv[j] : j \in 1..Len(e.iv)}]
+              iv |-> {e.iv[j] : j \in 1..Len(e.iv)}, split |-> Split(e)]
 Norm(e) ==
   IF e.ev \in {"Call", "Ret"} /\ e.op = "Add" THEN [ev |-> e.ev, op |-> "Add", id |-> <<e.k, e.i>>]
   ELSE IF e.ev = "Ret" /\ e.op = "Collect"
